@@ -139,6 +139,14 @@ theorem C03_reachable_WF (ops : List KVOp) (k : KV) (hk : KVInv k)
   rw [h2]
   exact isValid_WF _ hsep h1
 
+/-- the same without any hypothesis on the knot values (holds since the constructor's multiplicity check counts every value
+exactly, repair D35): **every reachable knot vector is well formed**. -/
+theorem C03_reachable_WF_exact (ops : List KVOp) (k : KV) (hk : KVInv k) :
+    WF (kvRun k ops).v (kvRun k ops).deg := by
+  obtain ⟨h1, h2⟩ := C03_reachable_inv ops k hk
+  rw [h2]
+  exact isValid_WF_exact _ h1
+
 /-- **C03 (atomic rejection).**  A rejected request leaves the object unchanged. -/
 theorem C03_failed_unchanged (k : KV) (op : KVOp) (e : Err) (h : kvStep k op = .error e) :
     kvApply k op = k := by
